@@ -72,6 +72,8 @@ structure St where
   cmnFrames : Nat
   /-- the live mean is no longer the one fixed at utterance start -/
   cmnMoved : Bool
+  /-- `fcb->cmn == CMN_BATCH` (configuration): which normalisation the block (`full_utt`) path applies -/
+  cmnBatch : Bool
   /-- (frame index, feature vector read) of every first-pass search step, in order -/
   searched : List (Nat × Option Feat)
   /-- the same for every alignment pass (`decoder_alignment`), one list per pass -/
@@ -87,7 +89,7 @@ def St.init (cmn0 : Nat) : St :=
   { state := .idle, nextId := 0, mfcBuf := List.replicate nMfc none, nMfcAlloc := nMfc, nMfcFrame := 0,
     mfcOutidx := 0, cepbuf := List.replicate livebuf none, bufpos := 0, curpos := 0,
     featBuf := List.replicate nMfc none, nFeatAlloc := nMfc, nFeatFrame := 0, featOutidx := 0,
-    outputFrame := 0, growFeat := growDefault, cmnFrames := cmn0, cmnMoved := false,
+    outputFrame := 0, growFeat := growDefault, cmnFrames := cmn0, cmnMoved := false, cmnBatch := true,
     searched := [], aligned := [], fault := none }
 
 /-! ## feature buffer -/
@@ -202,14 +204,55 @@ def liveIn (win : Nat) (skip : Nat → Bool) (s : St) (ptr ncep : Nat) (beginutt
   let s := pushMany s ((List.range ncep).map fun i => s.mfcBuf.getD (ptr + i) none)
   if endutt then repLast win (if s.bufpos = 0 then livebuf - 1 else s.bufpos - 1) s else s
 
+/-- batch CMN `cmn()` (cmn.c:176-230) on `n` frames at `ptr`: every frame is normalised once with the mean of exactly
+    these frames; `cmn->nframe` becomes the number of frames that entered the mean -/
+def cmnBatchBlock (skip : Nat → Bool) : Nat → Nat → St → St
+  | 0, _, s => s
+  | n + 1, ptr, s =>
+    match s.mfcBuf.getD ptr none with
+    | some c =>
+      cmnBatchBlock skip n (ptr + 1)
+        { s with mfcBuf := s.mfcBuf.set ptr (some { c with ncmn := c.ncmn + 1 }),
+                 cmnFrames := if skip c.id then s.cmnFrames else s.cmnFrames + 1 }
+    | none => fail "cmn on an unwritten cepstrum slot" s
+
+/-- the scratch copies of the first / last frame that `feat_s2mfc2feat_block_utt` keeps in `fcb->cepbuf[0 .. 2·win)` -/
+def blockScratch : Nat → Nat → Option Cep → Option Cep → St → St
+  | 0, _, _, _, s => s
+  | k + 1, win, first, last, s =>
+    let i := win - (k + 1)
+    if win + i < s.cepbuf.length then
+      blockScratch k win first last { s with cepbuf := (s.cepbuf.set i first).set (win + i) last }
+    else fail "cepbuf write out of range" s
+
+/-- `feat_compute_utt` over the padded pointer array (feat.c:952-967): frame `i` is computed from entries `i … i + 2·win` -/
+def blockFeats (win : Nat) (padded : List (Option Cep)) : Nat → Nat → Nat → St → St
+  | 0, _, _, s => s
+  | k + 1, i, o, s => blockFeats win padded k (i + 1) (o + 1) (writeFeat s o ((padded.drop i).take (2 * win + 1)))
+
+/-- `feat_s2mfc2feat_block_utt` (feat.c:971-1007): the whole utterance at once — `feat_cmn(.., 1, 1)` (batch CMN when
+    configured, else live CMN with the update at the end), the first and last frame replicated `win` times around the
+    frames, one feature vector per frame -/
+def blockUtt (win : Nat) (skip : Nat → Bool) (s : St) (ptr n outpos : Nat) : LiveRes :=
+  let s := if s.cmnBatch then cmnBatchBlock skip n ptr { s with cmnFrames := 0 } else cmnUpdate (cmnLive skip s ptr n)
+  let first := s.mfcBuf.getD ptr none
+  let last := s.mfcBuf.getD (ptr + n - 1) none
+  let s := blockScratch win win first last s
+  let padded := List.replicate win first ++ ((List.range n).map fun i => s.mfcBuf.getD (ptr + i) none) ++ List.replicate win last
+  ⟨blockFeats win padded n 0 outpos s, n, n⟩
+
 /-- feat.c:1009-1121.  `ptr`, `ncep`: the input frames are `mfc_buf[ptr .. ptr+ncep)`; `outpos`: index in
     `feat_buf` of `ofeat[0]`. -/
 def featLive (win : Nat) (skip : Nat → Bool) (s : St) (ptr ncep : Nat) (beginutt endutt : Bool) (outpos : Nat) : LiveRes :=
-  -- special case for entire utterances (l.1021-1023): batch regime, never taken by the streaming calls
-  if beginutt && endutt && decide (ncep > 0) then ⟨fail "block-utterance path taken in streaming mode" s, ncep, 0⟩ else
+  -- special case for entire utterances (l.1021-1023): the block path of `full_utt`
+  if beginutt && endutt && decide (ncep > 0) then blockUtt win skip s ptr ncep outpos else
   let nbuf1 := liveNbuf win s ncep beginutt endutt
-  -- only consume as much input as fits (l.1042-1049)
-  if nbuf1 + ncep > livebuf then ⟨fail "live buffer clamp" s, 0, 0⟩ else
+  -- only consume as much input as fits, and cancel the end-of-utterance processing (l.1042-1049); with the 128-frame
+  -- cepstrum ring of the streaming path this never happens (proved); a ring enlarged by an earlier `full_utt`
+  -- utterance makes it reachable
+  let clamp := decide (nbuf1 + ncep > livebuf)
+  let ncep := if clamp then livebuf - nbuf1 - win else ncep
+  let endutt := if clamp then false else endutt
   let s := liveIn win skip s ptr ncep beginutt endutt
   -- `nbufcep -= win` after the start replication (l.1065), `++nbufcep` per copied frame (l.1073)
   let nbuf3 := (if beginutt && decide (ncep > 0) then nbuf1 - win else nbuf1) + ncep
@@ -327,6 +370,40 @@ def processRaw (fixD8 : Bool) (win : Nat) (skip : Nat → Bool) (s : St) (rs : L
       ({ s with nMfcFrame := s.nMfcFrame + nvec }, rs, r.more)
   ⟨(processMfcbuf fixD8 win skip s).st, rs, more⟩
 
+/-! ## the batch path (`full_utt = 1`) -/
+
+/-- what the front end answers during one `acmod_process_full_raw/_float32` call: the frame-count query
+    (`fe_process(.., NULL, ..)`), the frames `fe_process` then yields, whether samples remain, whether `fe_end` has a
+    pending frame -/
+structure FullResp where
+  est : Nat
+  nvec : Nat
+  more : Bool
+  tail : Bool
+deriving DecidableEq, Repr, Inhabited
+
+/-- `acmod_process_full_cep` (acmod.c:404-433): `feat_buf` is replaced when too small, the features are written from
+    index 0 and `n_feat_frame` is *set* to their number -/
+def fullCep (win : Nat) (skip : Nat → Bool) (s : St) (n : Nat) : St :=
+  let s := if s.nFeatAlloc < n then
+      { s with featBuf := List.replicate n none, nFeatAlloc := n, nFeatFrame := 0, featOutidx := 0 } else s
+  let r := featLive win skip s 0 n true true 0
+  let s : St := { r.st with nFeatFrame := r.nfeat }
+  if s.nFeatFrame ≤ s.nFeatAlloc then s else fail "assert(n_feat_frame <= n_feat_alloc)" s
+
+/-- `acmod_process_full_raw` / `acmod_process_full_float32` (acmod.c:435-493): the cepstrum buffer is replaced when
+    smaller than the frame-count estimate (and stays that large afterwards), the front end is restarted, the frames of
+    this call are numbered from 0 -/
+def fullRaw (win : Nat) (skip : Nat → Bool) (s : St) (r : FullResp) : St :=
+  let s := if s.nMfcAlloc < r.est then { s with mfcBuf := List.replicate r.est none, nMfcAlloc := r.est } else s
+  let s := { s with nMfcFrame := 0, mfcOutidx := 0, nextId := 0 }
+  let nvec := min r.nvec r.est
+  let s := feWrite nvec 0 s
+  let ntail := min (if r.tail then 1 else 0) (r.est - nvec)
+  let s := feWrite ntail nvec s
+  let s := fullCep win skip s (nvec + ntail)
+  { s with nMfcFrame := 0 }
+
 /-! ## search side: `calc_feat_idx`, `acmod_score`, `acmod_advance`, `acmod_rewind` -/
 
 /-- `calc_frame_idx` + `calc_feat_idx` (acmod.c:764-802) for a non-negative requested frame -/
@@ -418,6 +495,20 @@ def endFe (s : St) (tail : Bool) : St × Nat :=
 def endHead (fixD8 : Bool) (win : Nat) (skip : Nat → Bool) (s : St) : St :=
   { (processMfcbuf fixD8 win skip { s with state := .started }).st with state := .ended }
 
+/-- `decoder_process_int16/float32` with `full_utt = 1` (decoder.c:964-1036): one `acmod_process_full_*` call per
+    iteration of the `while (n_samples)` loop (normally exactly one: the frame-count estimate makes room for everything) -/
+def decFull (win : Nat) (skip : Nat → Bool) (noSearch : Bool) : St → List FullResp → St
+  | s, [] => s
+  | s, r :: rs =>
+    let s1 := fullRaw win skip s r
+    let s2 := if noSearch then s1 else searchForward s1
+    if r.more then decFull win skip noSearch s2 rs else s2
+
+def decProcessFull (win : Nat) (skip : Nat → Bool) (s : St) (noSearch : Bool) (rs : List FullResp) : St :=
+  if s.state = .idle then s else
+  let s := if noSearch then setGrow s true else s
+  decFull win skip noSearch s rs
+
 /-- `acmod_end_utt` (acmod.c:371-402, with the D8 repair); `tail`: whether `fe_end` yields the pending partial frame -/
 def acmodEndUtt (fixD8 : Bool) (win : Nat) (skip : Nat → Bool) (s : St) (tail : Bool) : St :=
   let wasStarted := decide (s.state = .started)
@@ -436,6 +527,8 @@ def decEnd (fixD8 : Bool) (win : Nat) (skip : Nat → Bool) (s : St) (tail : Boo
 inductive Op
   /-- `decoder_process_int16/float32(d, data, n > 0, no_search, 0)` with the front-end responses it meets -/
   | process (noSearch : Bool) (resps : List FeResp)
+  /-- `decoder_process_int16/float32(d, data, n > 0, no_search, 1)`: the whole utterance in the batch regime -/
+  | processFull (noSearch : Bool) (resps : List FullResp)
   /-- `decoder_hyp` / `decoder_seg_iter`: read the search state only -/
   | query
   /-- `decoder_alignment` on the current (partial or final) result; `none` when it returns before
@@ -446,12 +539,19 @@ deriving Repr, Inhabited
 
 def Op.isProcess : Op → Bool
   | .process _ _ => true
+  | .processFull _ _ => true
+  | _ => false
+
+def Op.isFull : Op → Bool
+  | .processFull _ _ => true
   | _ => false
 
 def step (fixD8 : Bool) (win : Nat) (skip : Nat → Bool) (s : St) : Op → St
   | .process ns rs =>
     -- audio after decoder_end_utt is D26 (C09), outside this property
     if s.state = .ended then fail "decoder_process after decoder_end_utt" s else decProcess fixD8 win skip s ns rs
+  | .processFull ns rs =>
+    if s.state = .ended then fail "decoder_process after decoder_end_utt" s else decProcessFull win skip s ns rs
   | .query => s
   | .align none => s
   | .align (some upto) => alignPass s upto
